@@ -12,6 +12,8 @@ pub const CB_ITER: u8 = 16;
 pub const MODE_OFF: u8 = 0;
 pub const MODE_COUNT: u8 = 1;
 pub const MODE_CRASH: u8 = 2;
+/// native replay only: the observed callback panics at its CRASH_AT-th invocation
+pub const MODE_PANIC: u8 = 3;
 
 pub static mut MODE: u8 = MODE_OFF;
 /// which callback kinds are observed
@@ -43,6 +45,12 @@ pub fn user_callback(kind: u8) {
             if let Some(f) = PROBE_FN {
                 PROBE_OK = f(PROBE_Q);
             }
+        }
+        #[cfg(not(kani))]
+        if MODE == MODE_PANIC && CALLS == CRASH_AT {
+            PROBED = true;
+            MODE = MODE_OFF;
+            panic!("REPLAY-USER-PANIC: user callback panics at its {}-th invocation", CALLS);
         }
     }
 }
